@@ -74,6 +74,10 @@ class RIB:
             self.outgoing.enabled = True
             self.incoming.families = families
             self.outgoing.families = families
+            # the tables are reused, what the new configuration says about keeping them is not: reloading
+            # 'adj-rib-out false' to 'true' left the Adj-RIB-Out off for as long as the process ran
+            self.incoming.cache = adj_rib_in
+            self.outgoing.cache = adj_rib_out
             self.outgoing.delete_cached_family(families)
 
             if not adj_rib_out:
